@@ -65,8 +65,8 @@ theorem mem_posAll {c : Comp} : ∀ {args pos : List Nat}, posAll c args = some 
 theorem wp_coDC (cfg : Cfg) (hk : ∀ af T, cfg.enc.Base af T ↔ Complete af T) (v : FwView) (args : List Nat)
     (w : World) (hb : w.Bounded) :
     wp True (coDC cfg v args) w (fun ans _ =>
-      ∀ c cc, CC.mergedOf v (CC.new v) args = some (some c, cc) → c.af.WF → c.af.n = c.ids.length → ∀ pos, posAll c args = some pos →
-        ans.cert = none ∧ (ans.status = true ↔ ∃ T, Complete c.af T ∧ ∃ i ∈ pos, T i = true)) := by
+      ∃ c cc, CC.mergedOf v (CC.new v) args = some (some c, cc) ∧ (c.af.WF → c.af.n = c.ids.length → ∀ pos, posAll c args = some pos →
+        ans.cert = none ∧ (ans.status = true ↔ ∃ T, Complete c.af T ∧ ∃ i ∈ pos, T i = true))) := by
   unfold coDC
   simp only [Prog.bind_eq]
   rw [wp_bind, wp_mkSolver, wp_bind]
@@ -96,9 +96,8 @@ theorem wp_coDC (cfg : Cfg) (hk : ∀ af T, cfg.enc.Base af T ↔ Complete af T)
   · rintro m ⟨_, hΓ, hA⟩
     show wp True ((addClause _ _).bind _) _ _
     rw [wp_bind, wp_addClause1]
-    intro c' cc' hcc' hwf hn pos' hpos'
-    rw [hcc] at hcc'
-    injection hcc' with hcc'; injection hcc' with h1 h2; injection h1 with h1; subst h1
+    refine ⟨c, cc, hcc, ?_⟩
+    intro hwf hn pos' hpos'
     rw [hpos] at hpos'; injection hpos' with hpos'; subst hpos'
     refine ⟨rfl, ?_⟩
     simp only [Option.isSome_some, true_iff]
@@ -127,9 +126,8 @@ theorem wp_coDC (cfg : Cfg) (hk : ∀ af T, cfg.enc.Base af T ↔ Complete af T)
   · intro hunsat
     show wp True ((addClause _ _).bind _) _ _
     rw [wp_bind, wp_addClause1]
-    intro c' cc' hcc' hwf hn pos' hpos'
-    rw [hcc] at hcc'
-    injection hcc' with hcc'; injection hcc' with h1 h2; injection h1 with h1; subst h1
+    refine ⟨c, cc, hcc, ?_⟩
+    intro hwf hn pos' hpos'
     rw [hpos] at hpos'; injection hpos' with hpos'; subst hpos'
     refine ⟨rfl, ?_⟩
     simp only [Option.isSome_none, Bool.false_eq_true, false_iff]
